@@ -347,7 +347,8 @@ def run_mapper(spec, **kw):
         return spec.map_workload_to_arch(print_progress=False, **kw)
     except Exception as e:  # noqa: BLE001
         msg = str(e)
-        if "No pmappings" in msg or "No mappings" in msg or "no valid" in msg.lower() or "No valid" in msg:
+        low = msg.lower()
+        if "no pmappings" in low or "no mappings" in low or "no valid" in low:
             raise Infeasible(msg[:300])
         raise
 
@@ -399,3 +400,16 @@ def einsum_tensors(desc):
     outs = {t for e in desc["einsums"] for t, _, o in e["tensors"] if o}
     ins = {t for e in desc["einsums"] for t, _, o in e["tensors"] if not o}
     return {e["name"]: [t for t, _, _ in e["tensors"]] for e in desc["einsums"]}, outs & ins, ins - outs, outs - ins
+
+
+def run_mapper2(spec, **kw):
+    """run_mapper, additionally classifying accelforge's "Einsum X has no pmappings ... no pmappings satisfied
+    constraints" ValueError as Infeasible (the documented report that constraints leave an Einsum without pmappings)."""
+    try:
+        return run_mapper(spec, **kw)
+    except Infeasible:
+        raise
+    except ValueError as e:
+        if "has no pmappings" in str(e):
+            raise Infeasible(str(e)[:300])
+        raise
